@@ -34,7 +34,8 @@ KW_DEFAULT_KINDS = {"integer", "number", "float", "string", "boolean", "enumLit"
 NO_DEFAULT_KINDS = {"struct", "noneF"}
 SCALAR_KINDS = {None, "integer", "number", "float", "string", "boolean", "enumLit", "enumCls", "noneF", "anything"}
 ATTR_VALUES = {"bool": True, "list": [1, 2], "dict": {"k": 1}, "bareType": int, "generic": list[int], "other": 5,
-               "union": int | str}   # PEP 604 union of bare types (types.UnionType)
+               "union": int | str,   # PEP 604 union of bare types (types.UnionType)
+               "mapper": {}}
 CLASS_FORM = {"integer": Integer, "string": String, "boolean": typedpy.Boolean, "number": typedpy.Number,
               "float": typedpy.Float, "seqAny": typedpy.Array, "anything": typedpy.Anything,
               "mapAny": typedpy.Map, "setAny": typedpy.Set}
@@ -111,6 +112,15 @@ class HGen:
             e["annOnly"] = True     # spelled `name: F(...)` with no assignment
         if not allow_default or d["k"] in NO_DEFAULT_KINDS or '"k": "struct"' in json.dumps(d):
             return e     # defaults that are / contain Structure instances are out of scope
+        if rng.random() < 0.06:
+            # a literal None as default: `default=None` is no default at all; `name: F = None` is validated against F
+            # (refused unless F admits None) and then is no default either (`_default is None`)
+            if rng.random() < 0.5 and d["k"] in KW_DEFAULT_KINDS:
+                e["kw"] = {"lit": None}
+            else:
+                e["eq"] = {"lit": None}
+                e.pop("annOnly", None)
+            return e
         r = rng.random()
         if r < 0.55:
             return e
@@ -181,6 +191,10 @@ class HGen:
             src["ignoreNone"] = rng.random() < 0.8
         if rng.random() < 0.08:
             src["immutable"] = True
+        if rng.random() < 0.12:
+            # a (trivial) serialization / deserialization mapper of the class's own: what the derivation operators and
+            # subclassing do with it is part of the class record (`ownMappers`)
+            entries.append([rng.choice(["_serialization_mapper", "_deserialization_mapper"]), {"e": "attr", "a": "mapper"}])
         return src
 
     def keys_enums(self, pool, k, missing=None, pos=None):
@@ -685,6 +699,7 @@ def dump_cls(cls, ctx):
         "ignoreNone": bool(getattr(cls, "_ignore_none", False)),
         "immutable": bool(getattr(cls, "_immutable", False)),
         "addl": bool(getattr(cls, "_additional_properties", TypedPyDefaults.additional_properties_default)),
+        "ownMappers": sorted(k for k in ("_serialization_mapper", "_deserialization_mapper") if k in cls.__dict__),
     }
 
 
@@ -1465,7 +1480,8 @@ def cls_view(d):
             "own": d["own"], "required": d["required"],
             "constants": sorted([[n, dump.canon(v)] for n, v in d["constants"]]),
             "sigReq": d["sigReq"], "sigOpt": d["sigOpt"], "kwargs": d["kwargs"],
-            "ignoreNone": d["ignoreNone"], "immutable": d["immutable"], "addl": d["addl"]}
+            "ignoreNone": d["ignoreNone"], "immutable": d["immutable"], "addl": d["addl"],
+            "ownMappers": d.get("ownMappers", [])}
 
 
 def canon_dflt(d):
@@ -1538,6 +1554,10 @@ def bridge_correspondence(what, r, m):
     for k in ("order", "immFields", "defOrder", "accepts"):
         if ms[k] != rs[k]:
             return f"{what}: bridge {k} differs: model {ms[k]} real {rs[k]}"
+    if ms.get("wf") is False:
+        # C14.reachable_bridge_wf: cannot happen for a class a history defines (since the repair of
+        # names-mismatch:constant-shadowed-in-diamond the Constants are the Constant members of _field_by_name)
+        return f"{what}: the model's class record has Bridge.wf = false (signature / Constants / fields views disagree)"
     has_inline = '"inline": true' in json.dumps(rs["decl"])
     for i, (rc, mc) in enumerate(zip(r.get("ctor", []), m.get("ctor", []))):
         rr, mr = rc["res"], mc["res"]
